@@ -13,8 +13,8 @@ Migs == {[present |-> FALSE, newgca |-> "none", newid |-> 0, sig |-> [by |-> "no
 Replies == [len : {100, 712}, key : {"d1", "d2"}, offset : {0}, bits : {{}}, mig : Migs, servers : Lists,
             listok : BOOLEAN, time : {"fresh", "old", "future"}, sig : Sigs({"srv", "x1", "gca"})]
 Ctxs == {[server |-> "srv", gca |-> "gca", dev |-> "d1"]}
-Init == x = 0 /\ CInit
-Next == UNCHANGED <<x, cvars>>
+Init == x = 0 /\ CInit /\ SInit
+Next == UNCHANGED <<x, cvars, svars>>
 ParseAgrees == \A r \in Replies : \A c \in Ctxs :
                  /\ (ParseOutcome(r, c) = "ok") = Authentic(r, c)
                  /\ ParseOutcome(r, c) # "PANIC"
